@@ -54,9 +54,16 @@ func workload(chunk, n int, structT, concurrent bool) mx.History {
 	return mx.History{Chunk: chunk, Struct: structT, Concurrent: concurrent, Cycles: []mx.Cycle{c}}
 }
 
+// bigWorkload has runs larger than the 4 KiB read buffer of the gob decoder, so that reads
+// happen during Pull (small runs are read completely when Finalise primes them).
+func bigWorkload(conc bool) mx.History { return workload(300, 700, true, conc) }
+
+func isBig(h mx.History) bool { return h.Chunk >= 100 }
+
 func workloads() []mx.History {
 	var ws []mx.History
 	for _, conc := range []bool{false, true} {
+		ws = append(ws, bigWorkload(conc))
 		ws = append(ws, workload(2, 5, false, conc), workload(3, 9, true, conc))
 		if vlib.Thorough() {
 			ws = append(ws, workload(1, 4, false, conc), workload(4, 8, true, conc), workload(2, 4, true, conc), workload(3, 10, false, conc))
@@ -143,7 +150,11 @@ func TestSingleFaults(t *testing.T) {
 				}
 				for _, fp := range faultPoints {
 					n := clean.sc.Count(fp.step)
-					for occ := 0; occ < n; occ++ {
+					stride := 1
+					if isBig(h) && n > 20 {
+						stride = 41 // sampled, not exhaustive, for the large workload
+					}
+					for occ := 0; occ < n; occ += stride {
 						for _, a := range fp.actions {
 							if !yield(faultCase{H: h, Fault: sched.Fault{Step: fp.step, Occ: occ, Action: a}}) {
 								return
@@ -159,7 +170,11 @@ func TestSingleFaults(t *testing.T) {
 			if c.H.Concurrent {
 				mode = "concurrent"
 			}
-			return []string{c.Fault.Step + "/" + c.Fault.Action, mode, vlib.NT}
+			l := []string{c.Fault.Step + "/" + c.Fault.Action, mode, vlib.NT}
+			if isBig(c.H) {
+				l = append(l, "run-larger-than-read-buffer")
+			}
+			return l
 		}})
 }
 
